@@ -8,14 +8,15 @@ AlphaFull  == <<"a", "1", " ", "\n", "\"", "{", "}", "\\", "#", ".", "\r\n", "="
 AlphaLines == <<"a", " ", "\n", "\"", "{">>
 AlphaInd   == <<"a", " ", "\n", "#">>
 AlphaInterp == <<"a", " ", "\"", "{", "}">>
+AlphaDoc == <<"\"\"\"", "a", " ", "\n">>
 \* character classes: first / last letters and digits of each range, E (exponent), underscore, point, blank
 AlphaClasses == <<"a", "z", "A", "Z", "E", "_", "0", "9", ".", " ">>
-Alpha == CASE AlphaName = "full" -> AlphaFull [] AlphaName = "lines" -> AlphaLines [] AlphaName = "indent" -> AlphaInd [] AlphaName = "interp" -> AlphaInterp
+Alpha == CASE AlphaName = "full" -> AlphaFull [] AlphaName = "lines" -> AlphaLines [] AlphaName = "indent" -> AlphaInd [] AlphaName = "interp" -> AlphaInterp [] AlphaName = "doc" -> AlphaDoc
            [] AlphaName \in {"classes", "words"} -> AlphaClasses
 \* family "words": every word of the lexer's tables alone, and with a character of each class glued before / behind it
 WordInputs == AllWords \cup UNION { UNION { {<<c>> \o w, w \o <<c>>, w \o <<" ">> \o w} : c \in {"a", "Z", "_", "9", "E"} } : w \in AllWords }
 RECURSIVE Flatten(_, _)
-Flatten(parts, j) == IF j > Len(parts) THEN <<>> ELSE (IF parts[j] = "\r\n" THEN <<"\r", "\n">> ELSE <<parts[j]>>) \o Flatten(parts, j + 1)
+Flatten(parts, j) == IF j > Len(parts) THEN <<>> ELSE (IF parts[j] = "\r\n" THEN <<"\r", "\n">> ELSE IF parts[j] = "\"\"\"" THEN <<"\"", "\"", "\"">> ELSE <<parts[j]>>) \o Flatten(parts, j + 1)
 VARIABLE parts
 Init == IF AlphaName = "words" THEN parts \in WordInputs ELSE parts = <<>>
 Next == AlphaName # "words" /\ Len(parts) < N /\ \E j \in 1..Len(Alpha) : parts' = Append(parts, Alpha[j])
